@@ -69,7 +69,7 @@ type writeCall struct {
 
 func writeCallsOf(P *Program, fn *ssa.Function, family map[*ssa.Function]bool) []writeCall {
 	var out []writeCall
-	eachInstr(fn, func(in ssa.Instruction) {
+	eachInstrDeep(fn, func(in ssa.Instruction) {
 		call, ok := in.(*ssa.Call)
 		if !ok {
 			return
@@ -431,7 +431,7 @@ func r02_4(c *Ctx) {
 	}
 	name := fnLabel(fn)
 	var ms *ssa.Call
-	eachInstr(fn, func(in ssa.Instruction) {
+	eachInstrDeep(fn, func(in ssa.Instruction) {
 		if call, ok := isStaticCall(in, "(time.Duration).Milliseconds"); ok {
 			if b, ok := isFieldLoad(call.Call.Args[0], "Message", "Retry"); ok && b == ssa.Value(fn.Params[0]) {
 				ms = call
@@ -456,7 +456,7 @@ func r02_4(c *Ctx) {
 	c.check(gAll, name+":positive-only", P.ipos(ms), "the retry line is written only when the value is >= 1 ms", "a zero or negative retry value can be written (\"retry: \" with no digits, or garbage)")
 	// digit buffer
 	var arr *ssa.Alloc
-	eachInstr(fn, func(in ssa.Instruction) {
+	eachInstrDeep(fn, func(in ssa.Instruction) {
 		if al, ok := in.(*ssa.Alloc); ok {
 			if a, ok := deref(al.Type()).Underlying().(*types.Array); ok && a.Elem().String() == "byte" {
 				arr = al
@@ -465,7 +465,7 @@ func r02_4(c *Ctx) {
 	})
 	// library formatting of the millisecond value (base 10) is accepted instead of the manual loop
 	libDigits := false
-	eachInstr(fn, func(in ssa.Instruction) {
+	eachInstrDeep(fn, func(in ssa.Instruction) {
 		call, ok := in.(*ssa.Call)
 		if !ok {
 			return
@@ -492,7 +492,7 @@ func r02_4(c *Ctx) {
 		c.check(a.Len() >= 13, name+":digit-buffer", P.ipos(arr), "digit buffer holds >= 13 digits (MaxInt64/1e6)", "the digit buffer is too small for the largest millisecond value: index out of range panic for large Retry")
 		// the digit source is the millis phi seeded with ms and divided by 10 until 0
 		digitsOK := false
-		eachInstr(fn, func(in ssa.Instruction) {
+		eachInstrDeep(fn, func(in ssa.Instruction) {
 			phi, ok := in.(*ssa.Phi)
 			if !ok || len(phi.Edges) != 2 {
 				return
@@ -529,7 +529,7 @@ func r02_4(c *Ctx) {
 		return
 	}
 	good := false
-	eachInstr(um, func(in ssa.Instruction) {
+	eachInstrDeep(um, func(in ssa.Instruction) {
 		st, ok := in.(*ssa.Store)
 		if !ok {
 			return
@@ -803,7 +803,7 @@ func r15_3(c *Ctx) {
 		var buf *ssa.Alloc
 		var wt *ssa.Call
 		other := ""
-		eachInstr(fn, func(in ssa.Instruction) {
+		eachInstrDeep(fn, func(in ssa.Instruction) {
 			if al, ok := in.(*ssa.Alloc); ok && deref(al.Type()).String() == spec.buf {
 				buf = al
 			}
@@ -856,7 +856,7 @@ func r15_4(c *Ctx) {
 	// every `set` flag written while parsing is the constant true, next to the store of the field's value:
 	// a field line that was present (even with an empty value) must round-trip as set
 	nSet := 0
-	eachInstr(fn, func(in ssa.Instruction) {
+	eachInstrDeep(fn, func(in ssa.Instruction) {
 		st, ok := in.(*ssa.Store)
 		if !ok {
 			return
@@ -880,7 +880,7 @@ func r15_4(c *Ctx) {
 	if nSet < 2 {
 		// constructors may be used instead of direct stores; accept stores through newMessageField-like calls
 		viaCtor := 0
-		eachInstr(fn, func(in ssa.Instruction) {
+		eachInstrDeep(fn, func(in ssa.Instruction) {
 			if _, ok := isModCall(in, "newMessageField", "NewID", "NewType"); ok {
 				viaCtor++
 			}
@@ -894,7 +894,7 @@ func r15_4(c *Ctx) {
 	if rs != nil {
 		cleared := map[string]bool{}
 		whole := false
-		eachInstr(rs, func(in ssa.Instruction) {
+		eachInstrDeep(rs, func(in ssa.Instruction) {
 			if st, ok := in.(*ssa.Store); ok && isZeroConst(st.Val) {
 				if _, n, _, ok := fieldSel(st.Addr); ok {
 					cleared[n] = true
@@ -1007,6 +1007,8 @@ func r15_5(c *Ctx) {
 			}
 		}
 		var perrT, perrF, chunks0, chunksN, typeU, typeS, retry0, retryN, idU, idS bool
+		// facts from the branch conditions as they resolve on this path (a materialised `a || b` is a phi
+		// whose operand chosen on the path is the condition that was decisive)
 		for e := range p.St.Edges {
 			if len(e.From.Instrs) == 0 {
 				continue
@@ -1015,39 +1017,71 @@ func r15_5(c *Ctx) {
 			if !isIf || len(loopsContaining(fn, e.From)) > 0 {
 				continue
 			}
-			if s, ok := nilEdge(ifi, isPErr); ok {
-				if s == e.Idx {
-					perrF = true
-				} else {
-					perrT = true
+			v, val := p.St.resolve(ifi.Cond), e.Idx == 0
+			for {
+				u, isU := v.(*ssa.UnOp)
+				if !isU || u.Op != token.NOT {
+					break
 				}
+				v, val = p.St.resolve(u.X), !val
 			}
-			if l, h, okE, ok := intEdgeSets(ifi, isChunksLen, 0); ok && okE[e.Idx] {
-				if h[e.Idx] == 0 {
-					chunks0 = true
-				} else if l[e.Idx] >= 1 {
-					chunksN = true
-				}
-			}
-			if s, ok := boolEdge(ifi, isSetOf("Type")); ok {
-				if s == e.Idx {
+			if isSetOf("Type")(v) {
+				if val {
 					typeS = true
 				} else {
 					typeU = true
 				}
 			}
-			if s, ok := boolEdge(ifi, isSetOf("ID")); ok {
-				if s == e.Idx {
+			if isSetOf("ID")(v) {
+				if val {
 					idS = true
 				} else {
 					idU = true
 				}
 			}
-			if op, k, succ, ok := cmpConstEdge(ifi, isRetry); ok && k == 0 && (op == token.EQL || op == token.NEQ) {
-				if (e.Idx == succ) == (op == token.EQL) {
-					retry0 = true
-				} else {
-					retryN = true
+			bo, isB := v.(*ssa.BinOp)
+			if !isB {
+				continue
+			}
+			x, y, op := bo.X, bo.Y, bo.Op
+			if _, xc := x.(*ssa.Const); xc {
+				x, y, op = y, x, flipOp(op)
+			}
+			if !val {
+				op = map[token.Token]token.Token{token.LSS: token.GEQ, token.LEQ: token.GTR, token.GTR: token.LEQ, token.GEQ: token.LSS, token.EQL: token.NEQ, token.NEQ: token.EQL}[op]
+			}
+			srcAll := func(pred func(ssa.Value) bool, w ssa.Value) bool {
+				ss := sources(w)
+				for _, q := range ss {
+					if !pred(q) {
+						return false
+					}
+				}
+				return len(ss) > 0
+			}
+			switch {
+			case isNilConst(y) && srcAll(isPErr, x):
+				if op == token.EQL {
+					perrF = true
+				} else if op == token.NEQ {
+					perrT = true
+				}
+			case isChunksLen(x):
+				if k, isK := constInt(y); isK {
+					switch {
+					case (op == token.EQL && k == 0) || (op == token.LEQ && k == 0) || (op == token.LSS && k == 1):
+						chunks0 = true
+					case (op == token.NEQ && k == 0) || (op == token.GTR && k == 0) || (op == token.GEQ && k == 1):
+						chunksN = true
+					}
+				}
+			case isRetry(x):
+				if k, isK := constInt(y); isK && k == 0 {
+					if op == token.EQL {
+						retry0 = true
+					} else if op == token.NEQ {
+						retryN = true
+					}
 				}
 			}
 		}
